@@ -17,7 +17,7 @@ HINT = dict(HINT17)
 HINT.update({'amount': 10 ** 6 + 1, 'liquidity_tolerance': 5 * 10 ** 17})
 
 
-def _ob_equiv(odd, with_liq_tol=False):
+def _ob_equiv(odd, with_liq_tol=False, with_receiver=False):
     def s(I):
         b, res, amt, amt_b = world(I, (True, True, True))
         hint = dict(HINT, amount=10 ** 6 + (1 if odd else 0))
@@ -30,10 +30,14 @@ def _ob_equiv(odd, with_liq_tol=False):
         start = ch.snapshot()
         pre_lp = b.get('user', LPD['p1'])
         # (i) the real chain: execute -> self Swap sub-message -> reply -> self ProvideLiquidity
-        st1, _ = ch.execute('user', PM, provide_msg('p1', swap_slip=Some(5 * 10 ** 17), liq_slip=clone(liq) if liq else None), [coin_v('uA', amt)])
+        recv = Some('friend') if with_receiver else None
+        who_lp = 'friend' if with_receiver else 'user'
+        if with_receiver:
+            I.assume(I.addr_valid('friend'))
+        st1, _ = ch.execute('user', PM, provide_msg('p1', swap_slip=Some(5 * 10 ** 17), liq_slip=clone(liq) if liq else None, receiver=recv), [coin_v('uA', amt)])
         after1 = ch.snapshot()
         observe_pool(I, 'p1')
-        observe_bank(I, bank_of(I), [('user', 'uA'), ('user', 'uB'), ('user', LPD['p1']), (PM, 'uA'), (PM, 'uB')])
+        observe_bank(I, bank_of(I), [('user', 'uA'), ('user', 'uB'), ('user', LPD['p1']), ('friend', LPD['p1']), (PM, 'uA'), (PM, 'uB')])
         buffer_left = 'single_side_liquidity_provision_buffer' in I.world.store(PM)
         ch.restore(start)
         b = bank_of(I)
@@ -45,7 +49,8 @@ def _ob_equiv(odd, with_liq_tol=False):
         if st2a == 'ok':
             got = simp(b.get('user', 'uB') - pre_b)
             if I.fork(got > 0):
-                st2b, _ = ch2.execute('user', PM, provide_msg('p1', liq_slip=clone(liq) if liq else None), [coin_v('uA', half), coin_v('uB', got)])
+                st2b, _ = ch2.execute('user', PM, provide_msg('p1', liq_slip=clone(liq) if liq else None, receiver=clone(recv) if recv else None),
+                                      [coin_v('uA', half), coin_v('uB', got)])
         I.observe('status', 'ok' if st1 == 'ok' else 'err')
         if st1 != 'ok':
             I.outcome('chain_rejected')
@@ -61,13 +66,16 @@ def _ob_equiv(odd, with_liq_tol=False):
         p1b = get_pool(I, 'p1')
         I.check('same_reserves', smt.And(*[smt.Eq(x, y) for x, y in zip(reserves_of(p1a), reserves_of(p1b))]))
         I.check('same_lp_minted_to_sender', smt.Eq(b1.get('user', LPD['p1']), b.get('user', LPD['p1'])))
+        if with_receiver:
+            I.check('same_lp_minted_to_the_chosen_receiver', smt.Eq(b1.get('friend', LPD['p1']), b.get('friend', LPD['p1'])))
+            I.check('sender_receives_no_lp_when_a_receiver_is_chosen', smt.Eq(b1.get('user', LPD['p1']), pre_lp))
         I.check('same_fees_paid', smt.And(smt.Eq(b1.get('fee_collector', 'uB'), b.get('fee_collector', 'uB')), smt.Eq(b1.supply.get('uB', 0), b.supply.get('uB', 0))))
         I.check('leftover_is_amount_mod_2', smt.Eq(b1.get('user', 'uA'), b.get('user', 'uA') - par))
         I.check('no_proceeds_left_with_contract_or_user', smt.Eq(b1.get('user', 'uB'), b.get('user', 'uB')))
     return s
 
 
-def _replay_equiv(m):
+def _replay_equiv(m, with_receiver=False):
     from .c02 import _mints
     fees = fees_of_model(m)
     steps = [{'op': 'set_pool', 'pool': pool_json('p1', ['uA', 'uB'], [6, 6], [m['x1'], m['y1']], 'constant_product', fees)},
@@ -76,19 +84,21 @@ def _replay_equiv(m):
     steps += _mints([('pool_manager', [('uA', m['x1']), ('uB', m['y1'] + m['x2']), ('uC', m['y2']), (LPD['p1'], MINLIQ), (LPD['p2'], MINLIQ)]),
                      ('user', [('uA', tot), ('uB', tot), ('uC', tot), (LPD['p1'], m['S1'] - MINLIQ), (LPD['p2'], m['S2'] - MINLIQ)])])
     msg = {'provide_liquidity': {'pool_identifier': 'p1', 'swap_max_slippage': '0.5'}}
+    if with_receiver:
+        msg['provide_liquidity']['receiver'] = '@friend'
     if 'liquidity_tolerance' in m:
         msg['provide_liquidity']['liquidity_max_slippage'] = dec_j(m['liquidity_tolerance'])
     steps.append({'op': 'execute', 'contract': 'pool_manager', 'sender': 'user', 'funds': [coin_j('uA', m['amount'])], 'msg': msg})
     return {'setup': {}, 'steps': steps}, len(steps) - 1
 
 
-for _odd, _tol in ((False, False), (True, False), (False, True)):
-    obligation('C14', 'R1.single_asset_equals_swap_then_deposit_%s%s' % ('odd' if _odd else 'even', '_with_liquidity_tolerance' if _tol else ''),
+for _odd, _tol, _rcv in ((False, False, False), (True, False, False), (False, True, False), (True, False, True)):
+    obligation('C14', 'R1.single_asset_equals_swap_then_deposit_%s%s%s' % ('odd' if _odd else 'even', '_with_liquidity_tolerance' if _tol else '', '_to_receiver' if _rcv else ''),
                entries=['execute', 'provide_liquidity', 'query_simulation', 'swap::commands::swap', 'reply', 'validate_asset_balance'], kind='R',
                statement='single-asset deposit of amount a into a two-asset pool == Swap(a/2) then ProvideLiquidity([a/2, proceeds]) by the same sender: same reserves, '
                          'same LP minted to the sender, same fees; the only difference is the indivisible unit of an odd amount; the temporary buffer is removed',
                bounds='funded constant-product pool, reserves / supply / amount symbolic (%s amount)' % ('odd' if _odd else 'even'),
-               covers=['ok'], replay=generic_replay(lambda m: _replay_equiv(m)))(_ob_equiv(_odd, _tol))
+               covers=['ok'], replay=generic_replay(lambda m, r=_rcv: _replay_equiv(m, r)))(_ob_equiv(_odd, _tol, _rcv))
 
 
 def _ob_refusals(I):
